@@ -284,19 +284,7 @@ def run(ctx):
     if not ok:
         r.violate("pop_to|iterates", "TypedChildCounterMap::pop_to no longer pops in a loop: an end tag that closes more than one nesting level leaves stale nth-of-type counters of the deeper levels in place", cl[0].loc() if cl else None)
 
-    # ------------------------------------------------------------------ R04.7
-    r = ctx.rule("R04.7", "absolute indices: wherever the selector VM derives an id / stack index from `enumerate` (match ids from bit-set words, stack positions, jump indices), the enumeration runs over the whole container — no skipping, filtering or reversing adaptor sits between the container and `enumerate`", "E-MIR", floor=4)
-    SHIFTING = re.compile(r"(skip|skip_while|filter|filter_map|rev|step_by|chain|flat_map|flatten|take_while|map_while|peekable|zip)\(")
-    for f in mir.fns:
-        if mir.is_test_fn(f) or not f.path.startswith("selectors_vm::"):
-            continue
-        for bi, t in f.calls(r"Iterator::enumerate$|::enumerate$"):
-            chain = f.deep(t["args"][0])
-            key = f.key + "|enumerate"
-            r.inst(key, sample={"fn": f.key, "over": chain[:120]})
-            m = SHIFTING.search(chain)
-            if m:
-                r.violate(key, f"{f.key}: `enumerate` is applied after `{m.group(1)}` ({chain[:100]}): the indices are relative to the remaining items, so ids / positions computed from them are shifted (wrong handler or stack entry)", f.loc())
+    rule_absolute_indices(ctx, mir)
 
     # ------------------------------------------------------------------ R04.8
     r = ctx.rule("R04.8", "combinator routing agrees across the three layers: `>` fills AstNode.children and ` ` fills AstNode.descendants (Ast::add_selector); the compiler turns children into ExecutionBranch.jumps and descendants into hereditary_jumps; the VM stores them in the like-named StackItem fields, tries `jumps` of the parent (last stack item) only and `hereditary_jumps` of every open ancestor (Stack::active_hereditary_jumps, fed by push_item from the pushed item's hereditary_jumps)", "E-AST + E-MIR field flow", floor=7)
@@ -457,3 +445,20 @@ def clause_stack_directive(r, idx):
             r.inst(key, nontrivial=(want != "Push"))
             if got != want:
                 r.violate(key, f"get_stack_directive gives {got} for <{name or 'other'}> in the {ns.split('::')[-1]} namespace, expected {want}: " + ("an HTML void element name used in SVG/MathML is an ordinary element there (it has content unless self-closed), so can_have_content(), end-tag handlers and child matching would be wrong" if ns != "Namespace::Html" else "void elements have no content and no end tag; every other HTML element is pushed"), "src/selectors_vm/stack.rs")
+
+
+def rule_absolute_indices(ctx, mir, rid="R04.7"):
+    # ------------------------------------------------------------------ R04.7
+    r = ctx.rule(rid, "absolute indices: wherever the selector VM derives an id / stack index from `enumerate` (match ids from bit-set words, stack positions, jump indices), the enumeration runs over the whole container — no skipping, filtering or reversing adaptor sits between the container and `enumerate`", "E-MIR", floor=4)
+    SHIFTING = re.compile(r"(skip|skip_while|filter|filter_map|rev|step_by|chain|flat_map|flatten|take_while|map_while|peekable|zip)\(")
+    for f in mir.fns:
+        if mir.is_test_fn(f) or not f.path.startswith("selectors_vm::"):
+            continue
+        for bi, t in f.calls(r"Iterator::enumerate$|::enumerate$"):
+            chain = f.deep(t["args"][0])
+            key = f.key + "|enumerate"
+            r.inst(key, sample={"fn": f.key, "over": chain[:120]})
+            m = SHIFTING.search(chain)
+            if m:
+                r.violate(key, f"{f.key}: `enumerate` is applied after `{m.group(1)}` ({chain[:100]}): the indices are relative to the remaining items, so ids / positions computed from them are shifted (wrong handler or stack entry)", f.loc())
+
